@@ -859,7 +859,9 @@ class SoftwareSwitchBase (object):
       vl.payload = packet.payload
       packet.type = ethernet.VLAN_TYPE
       packet.payload = vl
-    packet.payload.id = action.vlan_vid
+    # (The action's field is 16 bits wide, a VLAN id is 12; don't let the
+    # rest spill into the tag's priority/CFI bits.)
+    packet.payload.id = action.vlan_vid & 0xfff
     return packet
   def _action_set_vlan_pcp (self, action, packet, in_port):
     if not isinstance(packet.payload, vlan):
@@ -868,7 +870,8 @@ class SoftwareSwitchBase (object):
       vl.eth_type = packet.type
       packet.payload = vl
       packet.type = ethernet.VLAN_TYPE
-    packet.payload.pcp = action.vlan_pcp
+    # (Likewise: 8 bits in the action, 3 in the tag.)
+    packet.payload.pcp = action.vlan_pcp & 7
     return packet
   def _action_strip_vlan (self, action, packet, in_port):
     if isinstance(packet.payload, vlan):
